@@ -1,5 +1,6 @@
 (* C10 — Proposal operations stay within their advertised geometry and are symmetric. *)
-From QV Require Import Model.Ops Proofs.OpsProofs.
+From Coquelicot Require Import Coquelicot. (* first: Model.Ops.ball must shadow Coquelicot's *)
+From QV Require Import Model.Ops Proofs.OpsProofs Proofs.OpsMeasure.
 From Coq Require Import Lra.
 
 (* ball: norm = r <= step;  sphere: norm = step;  box: components within +-step *)
@@ -50,6 +51,18 @@ Theorem C10_rotation_symmetric : forall phi c psi, -1 <= c <= 1 ->
   mmul (ase_rot phi c psi) (ase_rot (euler_inv_phi psi) c (euler_inv_psi phi)) = mident.
 Proof. exact ase_rot_inverse. Qed.
 Print Assumptions C10_rotation_symmetric.
+
+(* ... and those involutions preserve the uniform laws the draws come from (expectation of every continuous test function):
+   u -> -u on U[-s, s] (each Box coordinate; the cosine c of Ball / Sphere / Rotation with s = 1), phi -> phi + PI on the circle.
+   One coordinate at a time; the product over independent coordinates (Fubini) stays cited, DESIGN 5.6. *)
+Theorem C10_reflection_preserves_uniform : forall (f : R -> R) (s : R), (forall z, - s <= z <= s -> continuous f z) -> 0 <= s ->
+  RInt (fun u : R => f (- u)) (- s) s = RInt f (- s) s.
+Proof. exact uniform_reflection. Qed.
+Print Assumptions C10_reflection_preserves_uniform.
+Theorem C10_half_turn_preserves_uniform : forall (g : R -> R), (forall z, continuous g z) -> (forall z, g (z + 2 * PI) = g z) ->
+  RInt (fun phi : R => g (phi + PI)) 0 (2 * PI) = RInt g 0 (2 * PI).
+Proof. exact uniform_half_turn. Qed.
+Print Assumptions C10_half_turn_preserves_uniform.
 
 (* deformations *)
 Theorem C10_masked_identity : forall x mk i j, (i < 3)%nat -> (j < 3)%nat -> mk i j = false -> mget (masked x mk) i j = delta i j.
